@@ -149,6 +149,23 @@ template<class G> struct Pred2 {
       o.scalar(S(bad_geo)); o.scalar(S(0));
       return true;
     }
+    if(op=="P16"){   // C16: args: [off len], g, C, d_1 .. d_n (points X_i = C + d_i); iarg = kind (0 biinvariant, 1 average, 2 frechet_left, 3 frechet_right)
+      const int off=std::stoi(c.args[0][0]), len=std::stoi(c.args[0][1]); const int kind=std::stoi(c.iarg);
+      G g=mkG(c.args[1]), C=mkG(c.args[2]);
+      typedef std::vector<G, Eigen::aligned_allocator<G>> Vec_;
+      Vec_ pts; for(size_t i=3;i<c.args.size();i++) pts.push_back(C + mkT(c.args[i]));
+      auto avg=[&](const Vec_& p){ switch(kind){ case 0: return manif::average_biinvariant(p); case 1: return manif::average(p);
+                                                  case 2: return manif::average_frechet_left(p); default: return manif::average_frechet_right(p); } };
+      if(pts.empty()){ int thrown=0; try{ (void)avg(pts); } catch(const manif::runtime_error&){ thrown=1; } o.scalar(S(thrown)); o.scalar(S(1)); return true; }
+      G m = avg(pts);
+      { S n2=S(0); for(int i=0;i<len;i++) n2 += m.coeffs()(off+i)*m.coeffs()(off+i); S d = len? n2-S(1) : S(0); o.scalar(d); o.scalar(S(0)); }   // valid
+      { T r = T::Zero(); for(auto& X: pts) r += X.rminus(m); r *= S(1)/S((int)pts.size()); o.mat(r.coeffs()); o.mat(T::Zero().coeffs()); } // stationary: mean_i log(m^-1 X_i) = 0
+      { Vec_ q(pts.rbegin(), pts.rend()); if(q.size()>2) std::swap(q[0], q[q.size()/2]); o.mat(avg(q).transform()); o.mat(m.transform()); }   // order
+      { Vec_ q; for(auto& X: pts) q.push_back(g*X); o.mat(avg(q).transform()); o.mat((g*m).transform()); }                                // left translation
+      { Vec_ q; for(auto& X: pts) q.push_back(X*g); o.mat(avg(q).transform()); o.mat((m*g).transform()); }                                // right translation
+      { Vec_ q(pts.size(), pts[0]); o.mat(avg(q).transform()); o.mat(pts[0].transform()); }                                                 // identical points
+      return true;
+    }
     return false;
   }
 };
